@@ -46,12 +46,13 @@ def rr_cases(draw):
     return {"kernel": draw(st.sampled_from(["tpcn", "rwm"])), "resample": draw(st.sampled_from(["mult", "syst"])),
             "clustering": draw(st.booleans()), "mode": mode, "pool": pool, "d": draw(st.integers(1, 3)),
             "save_every": draw(st.sampled_from([1, 2, 3])), "seed": draw(st.integers(0, 2**31 - 2)),
-            "random_state": draw(st.one_of(st.none(), st.integers(0, 10**6))), "resume_mult": draw(st.sampled_from([1, 1, 2, 3]))}
+            "random_state": draw(st.one_of(st.none(), st.integers(0, 10**6))), "resume_mult": draw(st.sampled_from([1, 1, 2, 3])),
+            "resume_particles": draw(st.sampled_from([16, 16, 24, 40]))}
 
 
-def build(case, outdir):
+def build(case, outdir, n_particles=16):
     t = Target.from_spec(simple_target_spec(np.random.default_rng(case["seed"]), case["d"], case["mode"]))
-    s = make_sampler(t, dict(sample=case["kernel"], resample=case["resample"], clustering=case["clustering"], n_particles=16,
+    s = make_sampler(t, dict(sample=case["kernel"], resample=case["resample"], clustering=case["clustering"], n_particles=n_particles,
                              pool=case["pool"], random_state=case["random_state"]), output_dir=outdir)
     return s, t
 
@@ -96,12 +97,12 @@ def exec_rr(case):
                 raise Violation(f"checkpoint {name} (iteration {k0}) loaded into a fresh sampler does not restore the saved state: {diff}",
                                 sig={"kind": "roundtrip"})
             n_ck += 1
-            if name.endswith("_final.state"):
-                continue
-            # (2) resume on another fresh sampler
-            s3, t3 = build(case, od)
+            # (2) resume on another fresh sampler - also from the final checkpoint (a resume that may have nothing left to do), possibly
+            # with another number of particles per iteration (the weights are defined for unequal batch sizes)
+            is_final = name.endswith("_final.state")
+            s3, t3 = build(case, od, n_particles=int(case.get("resume_particles", 16)) if not is_final else 16)
             np.random.seed(case["seed"] + 1)
-            n_total_res = n_total * int(case.get("resume_mult", 1))  # the resumed run may ask for more samples than the first one
+            n_total_res = n_total * (int(case.get("resume_mult", 1)) if not is_final else 1)  # the resumed run may ask for more samples
             with quiet():
                 lib_call(s3.run, n_total=n_total_res, progress=False, resume_state_path=f, what="Sampler.run(resume_state_path=...)")
             st3 = s3.state
